@@ -161,7 +161,7 @@ func init() {
 			if err != nil {
 				return opRes{s: sp.name + ":" + errClass(err)}
 			}
-			return opRes{vals: []cty.Value{r}, s: sp.name + ":" + cty.VerifFingerprintType(rt)}
+			return opRes{vals: []cty.Value{r}, s: sp.name + ":" + fpType(rt)}
 		}
 		r, err := sp.f.Call(args)
 		if err != nil {
@@ -176,6 +176,61 @@ func init() {
 	for _, name := range []string{"StdlibChain", "StdlibChainB", "StdlibChainC"} {
 		defOp(name, "", stdlibChain, selAny)
 	}
+	// the type-level entry point asked about two types that print alike and are different types (twin capsule types,
+	// alone or inside structures): the answer for the one is the answer for the other with the types exchanged - whatever
+	// was asked before
+	defOp("ReturnTypeTwins", "", func(t *taskState, a [3]cty.Value, p [3]int) opRes {
+		sp := typedSpecs[p[0]%len(typedSpecs)]
+		mk := func(ct cty.Type) []cty.Type {
+			tys := make([]cty.Type, len(sp.args))
+			for i := range tys {
+				switch sp.args[i] {
+				case 'l':
+					tys[i] = cty.List(ct)
+				case 'e':
+					tys[i] = cty.Set(ct)
+				case 'm':
+					tys[i] = cty.Map(ct)
+				case 't':
+					tys[i] = cty.Tuple([]cty.Type{ct, cty.String})
+				case 'o':
+					tys[i] = cty.Object(map[string]cty.Type{"a": ct, "b": cty.String})
+				case 'q':
+					tys[i] = []cty.Type{cty.List(ct), cty.Set(ct), cty.Tuple([]cty.Type{ct})}[p[1]%3]
+				case 'a':
+					tys[i] = []cty.Type{ct, cty.List(ct), cty.Object(map[string]cty.Type{"c": ct})}[p[2]%3]
+				case 's', 'E', 'K', 'P', 'F', 'D', 'T', 'U', 'N', 'C', 'J':
+					tys[i] = cty.String
+				case 'n', 'I', 'B':
+					tys[i] = cty.Number
+				case 'b':
+					tys[i] = cty.Bool
+				default:
+					tys[i] = cty.DynamicPseudoType
+				}
+			}
+			return tys
+		}
+		first, second := capTypes[0], capTypes[2]
+		if p[1]%2 == 1 {
+			first, second = second, first
+		}
+		r1, err1 := sp.f.ReturnType(mk(first))
+		r2, err2 := sp.f.ReturnType(mk(second))
+		res := sres("%s %s %s", sp.name, errClass(err1), errClass(err2))
+		if (err1 == nil) != (err2 == nil) {
+			res.viol = fmt.Sprintf("%s.ReturnType succeeds for one of two twin capsule types and fails for the other: %v / %v", sp.name, err1, err2)
+		} else if err1 == nil {
+			i1, i2 := capsIdent(r1), capsIdent(r2)
+			swap := strings.NewReplacer("#cap0", "#cap2", "#cap2", "#cap0")
+			if swap.Replace(i1) != i2 || cty.VerifFingerprintType(r1) != cty.VerifFingerprintType(r2) {
+				res.viol = fmt.Sprintf("%s.ReturnType answers %s%s for arguments built on one capsule type and %s%s for the same arguments built on its twin (same name and Go type, another type)", sp.name, r1.FriendlyName(), i1, r2.FriendlyName(), i2)
+			}
+			res.s += fpType(r1) + fpType(r2)
+		}
+		res.violClass = "impure-repeat"
+		return res
+	})
 	// the objects derived from a shared Function: a re-described copy, its proxy, its unpredictable twin; the
 	// shared original must describe itself as before afterwards
 	defOp("FunctionWrappers", "", func(t *taskState, a [3]cty.Value, p [3]int) opRes {
